@@ -201,8 +201,9 @@ def _run(args, prop, seed, mod, scratch, binfo, t0):
             'wall_s': round(wall, 2),
             'violations': len(viol_list),
         }
-        os.makedirs(os.path.join(VERIF, 'evidence'), exist_ok=True)
-        p = os.path.join(VERIF, 'evidence', prop + '.json')
+        evdir = os.environ.get('VF_EVIDENCE_DIR', os.path.join(VERIF, 'evidence'))
+        os.makedirs(evdir, exist_ok=True)
+        p = os.path.join(evdir, prop + '.json')
         with open(p + '.tmp', 'w') as f:
             json.dump(ev, f, indent=1, default=core._default)
         os.replace(p + '.tmp', p)
